@@ -1,6 +1,7 @@
 SPECIFICATION Spec
 CONSTANTS
   MaxLen = 3
+  RunLens = {20, 70, 150, 300, 1100, 5000, 70000}
   Win = 24
 INVARIANT InvTrue
 CHECK_DEADLOCK FALSE
